@@ -180,7 +180,7 @@ def run_once_serial(cfg, *, max_workers=None, prelude=False, around_run=None, wa
     backend = SpyBackend(lt_serial.SerialRunnerBackend(), horizon=4 * spec.n + 8)
     lt_serial.run_or_load_task = _RecordRunOrLoad(backend.events, orig)
     try:
-        precache(storage, spec, built, cfg.precached, ctx)
+        precache(storage, spec, built, cfg.precached, ctx, corrupt=cfg.corrupt)
         U.WORLD.reset(epoch=1, faults=[spec.labels[i] for i in cfg.faults], fault_exc=cfg.fault_exc)
         req = [built.get(i, fr) for i, fr in cfg.requested]
         lab = labtech.Lab(storage=storage, runner_backend=backend, continue_on_failure=cfg.cof,
@@ -197,7 +197,7 @@ def run_once_serial(cfg, *, max_workers=None, prelude=False, around_run=None, wa
         except BaseException as e:  # noqa
             outcome = ('raise', e)
         ref = reference(spec, [i for i, _ in cfg.requested], precached=cfg.precached, faults=cfg.faults,
-                        died=cfg.died, bust_cache=cfg.bust_cache, context=ctx, pre_context=ctx)
+                        died=cfg.died, bust_cache=cfg.bust_cache, context=ctx, pre_context=ctx, corrupt=cfg.corrupt)
         metas = dict(backend.runner.metas) if backend.runner else {}
         return Obs(cfg=cfg, ref=ref, events=backend.events, world=list(U.WORLD.log), outcome=outcome,
                    req_tasks=req, built=built, storage=storage, metas=metas, choices=[])
